@@ -310,11 +310,12 @@ impl Rig {
         let https = free_addr();
         let tune = |b: &mut ListenerBuilder| {
             // generous timeouts: the harness decides about stalls (12 s without progress and an idle worker)
-            b.front_timeout = Some(180);
-            b.back_timeout = Some(180);
-            b.request_timeout = Some(120);
+            // (30 min: on a loaded machine a body crawling towards a 512-byte reader, or 1 500 window round trips, outlive 3 min)
+            b.front_timeout = Some(1800);
+            b.back_timeout = Some(1800);
+            b.request_timeout = Some(1200);
             b.connect_timeout = Some(30);
-            b.h2_stream_idle_timeout_seconds = Some(180);
+            b.h2_stream_idle_timeout_seconds = Some(1800);
             b.h2_max_window_update_stream0_per_window = Some(1_000_000);
             b.h2_max_glitch_count = Some(1_000_000);
             b.h2_max_empty_data_per_window = Some(1_000_000);
